@@ -1,4 +1,5 @@
 import QmiModel.Lemmas.C07Order
+import QmiModel.Lemmas.C07NetFifo
 /-!
 # C07 — published signals reach every subscribed receiver once, in order
 
@@ -293,18 +294,16 @@ theorem per_publisher_thread_order_local {s : State} (h : Reach s) (c : Ctx) (r 
   simp only [takerOf, ha1, hb1, Option.map_some, Option.some.injEq] at hta htb
   simpa using own_snapshots_in_publication_order h hlt ha1 hb1 hta htb
 
-/-- what remains to be shown about the network (event-loop queue → connection → socket thread are FIFO, and a context
-never receives its own publications back): the snapshots a socket thread takes for one publishing thread are in
-publication order.  The loop queue and the connection inboxes of the model are lists appended at the tail and consumed
-at the head; the composition over connect / disconnect is not mechanised (it is checked on the implementation by the
-C07 harness: clause `out-of-order`). -/
+/-- what the order of remote deliveries needs from the network: a context never receives its own publications back, and
+the snapshots a socket thread takes for one publishing thread are in publication order, each publication at most once
+(event-loop queue → connection → socket thread are FIFO, also across disconnect / reconnect).  Proved for every reachable
+state as `network_fifo` below. -/
 structure NetworkFifo (s : State) : Prop where
   foreign : ∀ (j : Nat) sn c, s.snaps[j]? = some sn → sn.taker = .sock c → sn.p.c ≠ c
   sorted : ∀ (i j : Nat) si sj c, i < j → s.snaps[i]? = some si → s.snaps[j]? = some sj →
       si.taker = .sock c → sj.taker = .sock c → si.p.c = sj.p.c → si.p.tid = sj.p.tid → si.p.seq < sj.p.seq
 
-/-- **order, all receivers (partial: assumes `NetworkFifo`)**: in every queue the publications of one publishing thread
-appear in publication order, each at most once (strict order) -/
+/-- conditional form (kept as the interface between the thread-local layer and the network layer) -/
 theorem per_publisher_thread_order_partial {s : State} (h : Reach s) (hnet : NetworkFifo s) (c : Ctx) (r : Rcv) :
     ((s.ctx c).got r).Pairwise (fun a b => a.p.c = b.p.c → a.p.tid = b.p.tid → a.p.seq < b.p.seq) := by
   have hd := dlvInv_reach h
@@ -348,8 +347,61 @@ theorem per_publisher_thread_order_partial {s : State} (h : Reach s) (hnet : Net
       simp only [Th.ctx] at hcb; subst hcb
       exact hnet.sorted _ _ _ _ _ (hab rfl) ha1 hb1 rfl rfl hc ht
 
+/-- **the network pipeline is FIFO per publishing thread** (Lemmas/C07NetBase, C07NetReg, C07NetFlow, C07NetFifo): in
+every reachable state the publications a socket thread has taken off its connections stem from other contexts, and those
+of one publishing thread were taken in publication order, each once.  The proof carries the invariant `FifoInv` through
+every action: signals travel server → client only (`TypInv`); an open connection end is registered or about to be closed
+by its own socket thread (`RegInv`), so a client has at most one live connection per server and a stale inbox is never
+read again; a publication in `snapRemote` is newer than everything in flight (`fresh`); `enq` / `cb` / `arrive` move the
+head of one stage to the tail of the next. -/
+theorem network_fifo {s : State} (h : Reach s) : NetworkFifo s := by
+  have hf := fifoInv_reach h
+  constructor
+  · intro j sn c hj ht
+    refine hf.foreign c sn.p ?_
+    simp only [consumed, List.mem_append, List.mem_filterMap]
+    exact Or.inl ⟨sn, List.mem_of_getElem? hj, by simp [snapPub, ht]⟩
+  · intro i j si sj c hij hi hj hti htj hc htid
+    have hsub : [si, sj].Sublist s.snaps := pair_sublist_of_getElem? hij hi hj
+    have h2 : ([si, sj].filterMap (snapPub c)).Sublist (consumed s c) :=
+      (hsub.filterMap _).trans (List.sublist_append_left _ _)
+    have h3 := (hf.cons c).sublist h2
+    simp only [List.filterMap_cons, List.filterMap_nil, snapPub, hti, htj, if_true, List.pairwise_cons, List.mem_singleton,
+      forall_eq] at h3
+    exact h3.1 hc htid
+
+/-- **order, all receivers (full strength)**: in every reachable state, in every receiver queue — of the publisher's own
+context or of any connected peer context, through any history of connects, disconnects and stops — the publications of
+one publishing thread appear in publication order, each at most once. -/
+theorem per_publisher_thread_order {s : State} (h : Reach s) (c : Ctx) (r : Rcv) :
+    ((s.ctx c).got r).Pairwise (fun a b => a.p.c = b.p.c → a.p.tid = b.p.tid → a.p.seq < b.p.seq) :=
+  per_publisher_thread_order_partial h (network_fifo h) c r
+
 /-- non-vacuity: the hypotheses of the partial theorem hold in a reachable state with a delivery -/
 example : ((run State.init exLocalDelivery).map fun s =>
     (s.snaps.map (fun sn => (sn.taker, sn.p.c, sn.p.tid, sn.p.seq)))) = some [(.user 0 1, 0, 1, 0)] := by decide
+
+/-- non-vacuity of the network layer: context 1 subscribes receiver 5 to object 0 / signal 0 of context 0 over a
+connection; thread (0, 3) publishes twice; both publications cross the event loop and the connection, the socket thread
+of context 1 takes one snapshot for each (snapshots 2 and 3), and receiver 5 gets them in publication order -/
+def exRemoteDelivery : List Act := [
+  .begin 0 0 (.makeObj 0), .micro (.user 0 0) 0 0, .micro (.user 0 0) 0 0, .micro (.user 0 0) 0 0,
+  .connect 1 0,
+  .begin 1 0 (.subscribe 0 0 0 5),
+  .micro (.user 1 0) 0 0, .micro (.user 1 0) 0 0, .micro (.user 1 0) 0 0,
+  .cb 1 true, .arrive 0 false,
+  .micro (.sock 0) 0 0, .micro (.sock 0) 0 0, .micro (.sock 0) 0 0, .micro (.sock 0) 0 0, .micro (.sock 0) 0 0,
+  .cb 0 true, .arrive 0 true, .micro (.sock 1) 0 0,
+  .micro (.user 1 0) 0 0, .micro (.user 1 0) 0 0,
+  .begin 0 3 (.publish 0 0), .micro (.user 0 3) 0 0, .micro (.user 0 3) 0 0, .micro (.user 0 3) 1 0, .micro (.user 0 3) 0 0, .micro (.user 0 3) 0 0,
+  .begin 0 3 (.publish 0 0), .micro (.user 0 3) 0 0, .micro (.user 0 3) 0 0, .micro (.user 0 3) 1 0, .micro (.user 0 3) 0 0, .micro (.user 0 3) 0 0,
+  .cb 0 true, .cb 0 true,
+  .arrive 0 true, .micro (.sock 1) 0 0, .micro (.sock 1) 5 0,
+  .arrive 0 true, .micro (.sock 1) 0 0, .micro (.sock 1) 5 0]
+
+example : ((run State.init exRemoteDelivery).map fun s =>
+    (s.snaps.map (fun sn => (sn.taker, sn.p.c, sn.p.tid, sn.p.seq)), ((s.ctx 1).got 5).map (fun it => (it.p.c, it.p.tid, it.p.seq)))) =
+    some ([(.user 0 3, 0, 3, 0), (.user 0 3, 0, 3, 1), (.sock 1, 0, 3, 0), (.sock 1, 0, 3, 1)], [(0, 3, 0), (0, 3, 1)]) := by
+  decide +kernel
 
 end QmiModel.PubSub
